@@ -67,6 +67,7 @@ type PrefixCase struct {
 	Tbl    []Res  `json:"tbl"`
 	Obs    []int  `json:"obs"` // per prefix length 0..len(data): index into Tbl
 	Frames []int  `json:"frames"`
+	Want   []Msg  `json:"want,omitempty"`
 	Oracle string `json:"oracle"`
 	BadAt  int    `json:"bad_at"`
 }
@@ -108,7 +109,7 @@ var (
 	diverged  int
 )
 
-const readLimit = 3 * time.Second
+const readLimit = 2 * time.Second
 
 func hx(b []byte) string { return hex.EncodeToString(b) }
 
@@ -663,7 +664,7 @@ func driveCase(kind string, data []byte, parts [][]int, want []Msg, valid bool) 
 }
 
 func prefixCase(kind string, data []byte, frames []int, want []Msg) PrefixCase {
-	pc := PrefixCase{Kind: kind, Data: hx(data), Frames: frames, BadAt: -1}
+	pc := PrefixCase{Kind: kind, Data: hx(data), Frames: frames, Want: want, BadAt: -1}
 	keys := map[string]int{}
 	for k := 0; k <= len(data); k++ {
 		if diverged >= 2 {
@@ -709,17 +710,11 @@ func replay(path string, res *Result) {
 	}
 	for _, c := range in.Prefixes {
 		data, _ := hex.DecodeString(c.Data)
-		var want []Msg
-		if len(c.Frames) > 0 && len(c.Tbl) > 0 { // expected first message travels in Tbl[0].M of a replay file
-			if c.Tbl[0].M != nil {
-				want = []Msg{*c.Tbl[0].M}
-			}
-		}
 		frames := c.Frames
-		if want == nil {
+		if len(c.Want) == 0 {
 			frames = nil
 		}
-		res.Prefixes = append(res.Prefixes, prefixCase(c.Kind, data, frames, want))
+		res.Prefixes = append(res.Prefixes, prefixCase(c.Kind, data, frames, c.Want))
 	}
 	for _, c := range in.Drives {
 		data, _ := hex.DecodeString(c.Data)
@@ -753,7 +748,7 @@ func Run(a map[string]string) {
 	}
 
 	// (1) Write against the model; (2) single frames followed by arbitrary bytes
-	for i := 0; i < n; i++ {
+	for i := 0; i < n && diverged < 2; i++ {
 		r := root.Fork(uint64(1000 + i))
 		m := genMsg(r)
 		out, err := writeFrame(m)
